@@ -30,6 +30,10 @@ import RedisVerif.Model.StreamActor
     XFLUSH <sz>                                         → flush(): as FLUSH, plus bytes=<b>
     XADV <ms>                                           → the clock advances: ok
     XWPUSH <key> <rv> <klen> / XWSHOULD / XWFLUSH       → the stand-alone WriteBuffer (push / should_flush / flush)
+    XTICK / XFLUSHQ                                     → one iteration / the final flush of persistence::PersistenceWorker:
+                                                          pending=<n> calls=<c> segs=[..]
+    XWPUSHQ <key> <rv> <klen> / XWTICK <elapsed>        → WriteBuffer::push without looking at the result / one iteration of
+                                                          FlushWorker, DeltaSinkPersistenceWorker: pending=<n> bytes=<b> calls=<c>
     ASEND <key> <rv> <klen>                             → DeltaSinkSender::send: ok | err disconnected
     ADRAIN / ATICK / ASTOPBRIDGE / AREQSHUTDOWN         → one event each: ok
     ARUN                                                → the actor handles messages until its mailbox is empty (or it
@@ -180,6 +184,29 @@ def stepX (s : St) (line : String) : Option (St × String) :=
         | .flushed id n => s!"ok seg={id} n={n} pending={a'.x.p.buffer.length} calls={a'.w.calls}"
         | .error => s!"err pending={a'.x.p.buffer.length} calls={a'.w.calls}"
       some ({ s with act := a' }, s!"{o} bytes={a'.x.size}")
+    | none => some (s, "bad-op")
+  | ["XTICK"] =>
+    -- one iteration of persistence::PersistenceWorker::run (`if should_flush() { flush() }`) = the Tick arm
+    let a' := StreamActor.maybeFlush F s.acfg 0 s.act
+    some ({ s with act := a' }, s!"pending={a'.x.p.buffer.length} calls={a'.w.calls} segs={showSegs a'.w.store}")
+  | ["XFLUSHQ"] =>
+    let a' := StreamActor.doFlush F 0 s.act
+    some ({ s with act := a' }, s!"pending={a'.x.p.buffer.length} calls={a'.w.calls} segs={showSegs a'.w.store}")
+  | "XWPUSHQ" :: _ =>
+    match sdelta line "XWPUSHQ" with
+    | some d => some ({ s with wb := (StreamActor.wbPush s.acfg s.wb d).1 }, "ok")
+    | none => some (s, "bad-op")
+  | ["XWTICK", e] =>
+    -- one iteration of FlushWorker::run / DeltaSinkPersistenceWorker::run: `if should_flush() { flush() }`
+    match e.toNat? with
+    | some el =>
+      let b := s.wb
+      let should := if b.deltas.isEmpty then false
+                    else decide (b.bytes ≥ s.acfg.maxSize) || decide (b.deltas.length ≥ s.acfg.maxDeltas) || el != 0
+      if should then
+        let r := StreamActor.wbFlush F s.act.w s.wb
+        some ({ s with wb := r.2.1, act := { s.act with w := r.1 } }, s!"pending={r.2.1.deltas.length} bytes={r.2.1.bytes} calls={r.1.calls}")
+      else some (s, s!"pending={b.deltas.length} bytes={b.bytes} calls={s.act.w.calls}")
     | none => some (s, "bad-op")
   | ["XADV", m] =>
     match m.toNat? with
